@@ -574,8 +574,11 @@ let lifecycle_case (toks : string list) : string =
               (List.init (String.length r) (String.get r)))) !recs in
     let shown = List.sort compare shown in
     ignore width;
-    Printf.sprintf "%s conns=%d logs=%s after_disc=%d fd_delta=%d stale=%d" mode (List.length shown)
-      (if shown = [] then "-" else String.concat "," shown) !after (List.length st.M.peers + files_open) stale
+    (* tables: peers left + write queues left under closed numbers (q_closed_number_has_no_queue: none) *)
+    let qst = M.qrun true qevs in
+    let queues_left = List.length (List.filter (fun i -> not (qst.M.q_open (nat_of_int (i + 10))) && qst.M.q_queue (nat_of_int (i + 10)) <> []) (List.init width (fun i -> i))) in
+    Printf.sprintf "%s conns=%d logs=%s after_disc=%d fd_delta=%d stale=%d tables=%d" mode (List.length shown)
+      (if shown = [] then "-" else String.concat "," shown) !after (List.length st.M.peers + files_open) stale (List.length st.M.peers + queues_left)
   | _ -> "BADCASE"
 
 (* ---------------- client request/response matching (C15) ---------------- *)
@@ -626,7 +629,9 @@ let client_case (toks : string list) : string =
             started.(r) <- true;
             if own.(r) > 0 then push (now + own.(r)) (`Tmo (c, r));
             (match behs.(r) with
-             | "a" -> push (now + 1) (`Resp (c, gen.(c), false))
+             | "a" | "q" -> push (now + 1) (`Resp (c, gen.(c), false))
+             (* interim responses (100, 102) are not the answer: only the final response counts *)
+             | "Q" -> push (now + 21) (`Resp (c, gen.(c), false))
              | "d" -> push (now + 60) (`Resp (c, gen.(c), false))
              | "b" -> push (now + 30) (`Resp (c, gen.(c), false))
              | "c" -> push (now + 15) (`Resp (c, gen.(c), false))
